@@ -37,6 +37,13 @@ def boundary_cases(strength):
          "evaluate"),
         ("efield/islands3/RWGseg1", "islands3", ("RWG", 0, {"segments": [1], "include_boundary_dofs": True}), None,
          ("SNC", 0, {"include_boundary_dofs": True}), "efield", 1.0, "evaluate"),
+        # one grid, DIFFERENT test and trial spaces (test-side maps must not be shared with the trial side)
+        ("hyp/islands3/P1b<-P1b-swapped", "islands3", ("P", 1, {"include_boundary_dofs": True}), None,
+         ("P", 1, {"include_boundary_dofs": True, "swapped_normals": [1]}), "hyp", 1.0 + 0.25j, "evaluate"),
+        ("hyp/islands3/P1seg0<-P1seg1", "islands3", ("P", 1, {"segments": [1], "include_boundary_dofs": True}), None,
+         ("P", 1, {"segments": [0], "include_boundary_dofs": True}), "hyp", None, "evaluate"),
+        ("sl/islands3/P1b<-DP0seg1", "islands3", ("DP", 0, {"segments": [1]}), None,
+         ("P", 1, {"include_boundary_dofs": True}), "sl", None, "evaluate"),
         # two different grids
         ("sl/strip2->tet", "strip2", ("DP", 0, {}), "tet", ("P", 1, {}), "sl", None, "evaluate"),
     ]
@@ -46,6 +53,12 @@ def boundary_cases(strength):
              ("DP", 1, {"swapped_normals": [0]}), "adl", 0.75, "evaluate"),
             ("mfield/islands3/RWGb", "islands3", ("RWG", 0, {"include_boundary_dofs": True}), None,
              ("SNC", 0, {"include_boundary_dofs": True}), "mfield", 0.75, "sparse"),
+            ("mfield/islands3/SNCb<-RWGseg1", "islands3", ("RWG", 0, {"segments": [1], "include_boundary_dofs": True}),
+             None, ("SNC", 0, {"include_boundary_dofs": True}), "mfield", 1.0, "evaluate"),
+            ("hypmod/islands3/P1seg1<-P1b", "islands3", ("P", 1, {"include_boundary_dofs": True}), None,
+             ("P", 1, {"segments": [1], "include_boundary_dofs": True}), "hyp_mod", 0.5, "evaluate"),
+            ("dl/islands3/DP0<-DP0swapped", "islands3", ("DP", 0, {"swapped_normals": [1]}), None, ("DP", 0, {}),
+             "dl", 1.0, "evaluate"),
             ("hyp/strip3/P1b/lap", "strip3", ("P", 1, {"include_boundary_dofs": True}), None,
              ("P", 1, {"include_boundary_dofs": True}), "hyp", None, "sparse"),
             ("hyp/fan4/P1/mod", "fan4", ("P", 1, {}), None, ("P", 1, {}), "hyp_mod", 0.5, "evaluate"),
